@@ -164,11 +164,17 @@ def input_section(mode='int', aux='none', cap=30, block=()):
                 cfg["input"]["right"]["disp"] = 'rgrid.tif'; conds.append(z3.BoolVal(False))
         else:
             gw = SS.fresh_int('GW', 1, B); gh = SS.fresh_int('GH', 1, B)
-            g = S.fresh_array('grid', (2, 2, 2), 'f4'); col.shapes['grid'] = ((2, 2, 2), 'f4')
+            if mode == 'grid-u8':
+                # a grid file stored as unsigned 8-bit integers (rasterio returns the file's dtype): arithmetic on it wraps around
+                g = S.fresh_array('grid', (2, 2, 2), 'u1'); col.shapes['grid'] = ((2, 2, 2), 'u1')
+                order = z3.And(*[z3.ULE(g._a[0, r, c].t, g._a[1, r, c].t) for r in range(2) for c in range(2)])
+            else:
+                g = S.fresh_array('grid', (2, 2, 2), 'f4'); col.shapes['grid'] = ((2, 2, 2), 'f4')
+                order = z3.And(*[z3.Not(z3.fpGT(g._a[0, r, c].t, g._a[1, r, c].t)) for r in range(2) for c in range(2)])
             cnt = 2 if mode != 'grid-count' else SS.fresh_int('count', 1, 4)
             files['grid.tif'] = Reader(gw, gh, cnt, [g[0], g[1]])
             cfg["input"]["left"]["disp"] = 'grid.tif'
-            conds += [gw.t == W.t, gh.t == H.t, z3.And(*[z3.Not(z3.fpGT(g._a[0, r, c].t, g._a[1, r, c].t)) for r in range(2) for c in range(2)])]
+            conds += [gw.t == W.t, gh.t == H.t, order]
             if mode == 'grid-count':
                 conds.append(cnt.t == 2)
             if mode == 'grids':
@@ -239,7 +245,7 @@ def replay_input(cex):
         if mode == 'int-right-grid':
             files['rgrid.tif'] = Reader(g('W2', 4), g('H2', 4), 2, [np.zeros((1, 1)), np.ones((1, 1))]); cfg["input"]["right"]["disp"] = 'rgrid.tif'; well = False
     else:
-        gr = np.array(g('grid', np.zeros((2, 2, 2))), np.float32).reshape(2, 2, 2)
+        gr = np.array(g('grid', np.zeros((2, 2, 2))), np.float32 if mode != 'grid-u8' else np.uint8).reshape(2, 2, 2)
         cnt = 2 if mode != 'grid-count' else g('count', 2)
         files['grid.tif'] = Reader(g('GW', 4), g('GH', 4), cnt, [gr[0], gr[1]]); cfg["input"]["left"]["disp"] = 'grid.tif'
         well = well and g('GW', 4) == g('W', 4) and g('GH', 4) == g('H', 4) and not (gr[0] > gr[1]).any() and cnt == 2
